@@ -729,7 +729,7 @@ PROPS["C11"] = {
                   "order and parameters for every request' follows because dispatch is a function of the ordered registration list "
                   "(C01/C02/C03); the harness additionally serves requests on both routers. Acceptance by the route tree (parse errors, "
                   "duplicates) is a parameter of every theorem. Models the repaired code for findings F9, F13 and F16.",
-    "props_modules": ["Flamego.Props.C11"],
+    "props_modules": ["Flamego.Props.C11", "Flamego.Props.C11App", "Flamego.Proofs.DslApp"],
     "suite": "C11",
     "stats": generic_stats(_c11_nontrivial,
         "sessions = registration programs (all sequences of <=2 [thorough: sampled <=3] items over 6 wrappers x 15 statements, then "
@@ -748,6 +748,22 @@ PROPS["C11"] = {
     "assumptions": ["registration happens on one goroutine before serving (the router has no locking)",
                     "a failed AddRoute leaves nothing observable behind (finding F11 is repaired separately)"],
 }
+PROPS["C11"]["technique"] += ("; plus the end-to-end composition (Model/DslApp, Props/C11App): the acceptance of a registration is the "
+    "model parser + the model route trees (accReal), the registrations a program leaves are served by the application model of C07 "
+    "(appOfProg), and the driver answers every probe request through App.serve")
+PROPS["C11"]["level_text"] += (" End to end (Props/C11App, for every engine, program, handler environment, surrounding application and "
+    "request): serving the application declared by a program equals serving the application declared by its flat list of Route calls "
+    "run through the same interpreter (dsl_serve_eq_flat_serve); a dispatched request runs middleware ++ (group handlers outermost "
+    "first ++ the route's own) ++ action (dsl_chain_layout, dsl_chain_layout_nested); a request is dispatched iff a registration of "
+    "its method left by the program has a form admitting the path (dsl_dispatch_iff, from C01.serve_dispatch_iff, whose guard is "
+    "proved for every program); a refused, recovered registration is invisible to every request (dsl_rejected_invisible). In mode m "
+    "the driver's acceptance is accReal and every probe request is answered by App.serve on appOfProg (handler-id trace from the "
+    "chain machine's event trace + the `route` parameter), cross-checked against the Dsl-level lookup in the flat list.")
+PROPS["C11"]["trusted_base"] = [
+    ("the driver instantiates the acceptance with accReal = model parser (C06) + Router.addMethods on the router built from the earlier "
+     "registrations (C08/C10 models); the Dsl-level theorems stay quantified over every acceptance function")
+    if t.startswith("parameter, not verified here: the route-tree layer's acceptance") else t
+    for t in PROPS["C11"]["trusted_base"]]
 
 
 # ---------------------------------------------------------------------------------- C06
